@@ -149,8 +149,9 @@ Definition mac_dec_into (prev : macpayload) (data : list N) : outcome macpayload
   if (n <? 7 + ol)%nat then Err else
   do h <- fhdr_dec_into (hdr prev) (firstn (7 + ol) data);
   let port := if (7 + ol <? n)%nat then Some (nth (7 + ol) data 0) else None in     (* p.FPort = nil first *)
+  (* FPort 0 excludes FOpts, also when the FRMPayload is empty (after fix 6878deb) *)
+  if (match port with Some 0 => true | _ => false end) && (0 <? ol)%nat then Err else
   if (7 + ol + 1 <? n)%nat then
-    if (match port with Some 0 => true | _ => false end) && (0 <? ol)%nat then Err else
     Ok (mkMAC h port [IData (skipn (7 + ol + 1) data)])
   else Ok (mkMAC h port []).                                                        (* p.FRMPayload = nil first *)
 
